@@ -91,9 +91,30 @@ def replay(run, f, tv):
             np.concatenate([xb[:6], rot_of(xb[6:]).flatten()]), np.concatenate([x0[:6], rot(tv["pre"]["q"]).flatten()]), tv)
     xc = f(f(x0, a, phi, g, 1.5 * T), a, phi, g, -0.5 * T)
     check(xc, "dt=1.5T-0.5T")
+    # (3c) the group method itself called with NUMBERS and a tiny step (a 10 kHz IMU, dt = 1e-4 ... 5e-7): increments such as
+    #      a*dt of 1e-7 are ordinary data; the result must equal the exported function evaluated at the same numbers
+    if _TINY["n"] < 24:
+        _TINY["n"] += 1
+        import cyecca.lie as lie_
+        for dts in (1e-4, 5e-7):
+            a_t = np.array([a[0] * 1e-3, a[1] * 1e-3, a[2]])          # small horizontal specific force
+            xt = np.array(f(x0, a_t, phi, g, dts)).flatten()
+            X0n = lie_.SE23Quat.elem(ca.DM(x0))
+            ln = lie_.se23.elem(ca.DM(np.concatenate([[0, 0, 0], a_t, phi]) * dts))
+            rn = lie_.se23.elem(ca.DM(np.array([0, 0, 0, 0, 0, -g, 0, 0, 0.0]) * dts))
+            Bn = ca.sparsify(ca.SX([[0, 1], [0, 0]])) * dts
+            try:
+                xn = np.array(ca.DM(lie_.SE23Quat.exp_mixed(X0n, ln, rn, Bn).param)).flatten()
+            except Exception as ex:     # noqa
+                run.violation(f"exp_mixed/numeric_tiny_step/raises", f"{type(ex).__name__}: {ex}", {"tv": tv}); break
+            cmp.vec(f"exp_mixed/numeric_tiny_step/dt={dts:g}", "SE23Quat.exp_mixed called with numbers and a tiny step differs from the exported "
+                    "function at the same numbers", (xn - x0) / dts, (xt - x0) / dts, tv)
     xz = np.array(f(x0, a, phi, g, 0.0)).flatten()
     cmp.vec(f"strapdown/dt0_identity/{cell}", "dt = 0 is not the identity", np.concatenate([xz[:6], rot_of(xz[6:]).flatten()]),
             np.concatenate([x0[:6], rot(tv["pre"]["q"]).flatten()]), tv)
+
+
+_TINY = {"n": 0}
 
 
 def rot_of(q):
